@@ -28,7 +28,22 @@ def graphs():
 
 
 def norm(n):
-    return n.replace(' ', '')
+    """comparable name: no spaces, no generic arguments on path segments (`Collector::<'_>::visit` and `Collector<'_>::visit` -> `Collector::visit`)"""
+    n = n.replace(' ', '')
+    if n.startswith('<'):
+        return n
+    out, depth = [], 0
+    for ch in n:
+        if ch == '<':
+            depth += 1
+        elif ch == '>':
+            depth -= 1
+        elif depth == 0:
+            out.append(ch)
+    r = ''.join(out)
+    while '::::' in r:
+        r = r.replace('::::', '::')
+    return r
 
 
 def compare():
